@@ -25,14 +25,20 @@ def KeysUnique (rows : List Row) : Prop :=
 
 def sumSizes (rows : List Row) : Int := (rows.map (fun r => (r.size : Int))).sum
 
-/-- Table well-formedness kept by every operation. -/
+/-- well-formedness of a table with its two trigger-maintained counters -/
+structure TableOk (rows : List Row) (count size : Int) : Prop where
+  asc : RowidsAsc rows
+  pos : ∀ r ∈ rows, 0 < r.rowid
+  uniq : KeysUnique rows
+  nonnull : ∀ r ∈ rows, r.key ≠ .null
+  count : count = rows.length
+  size : size = sumSizes rows
+
+/-- Table well-formedness kept by every operation: the working table, and the
+snapshot a ROLLBACK of the open block would restore. -/
 structure TableInv (s : Cache) : Prop where
-  asc : RowidsAsc s.rows
-  pos : ∀ r ∈ s.rows, 0 < r.rowid
-  uniq : KeysUnique s.rows
-  nonnull : ∀ r ∈ s.rows, r.key ≠ .null
-  count : s.count = s.rows.length
-  size : s.size = sumSizes s.rows
+  tbl : TableOk s.rows s.count s.size
+  snap : ∀ p, s.snap = some p → TableOk p.rows p.count p.size
 
 /-- Every file-backed row refers to an existing file of the recorded size,
 two rows never share a file, and file ids are below the allocation counter. -/
